@@ -15,6 +15,9 @@ def gen(ctx):
         # failures injected at AUTH TLS, at the control handshake, at PBSZ/PROT, at the data connection
         for auth in (421, 431, 500, 502, 504, 530, 534):
             yield line(cfg_str(ver=ver), [connect(auth=auth), "isconn"])
+        # a positive answer to AUTH TLS other than 234 is still a positive answer: the handshake must follow
+        for auth in (200, 232, 334):
+            yield line(cfg_str(ver=ver), [connect(auth=auth), noop, get("p", 1)])
         yield line(cfg_str(ver=ver), [connect(garbage=True), "isconn", "disc:0", connect(), noop])
         yield line(cfg_str(ver=ver, verify="peer"), [connect(bad_cert=True), "isconn", "disc:0", connect(), noop])
         yield line(cfg_str(ver=ver, verify="none"), [connect(bad_cert=True), noop, get("p", 1)])
